@@ -363,11 +363,23 @@ def run_batch(prop: str, tier: str, seed: int, nproc: int | None = None) -> int:
                 totals[k] += val
     samples = [o["scenario"] for o in ok_outs[:3]] + [o["scenario"] for o in ok_outs[-2:]]
     n_viol = sum(1 for l in violation_lines if l.startswith("VIOLATION"))
+    n_eval, n_distinct = len(outs), len(distinct)
+    if totals.get("executions"):
+        # fault-enumeration checks run many executions (one per fault point) inside one seeded workload
+        n_eval = int(totals["executions"])
+        seen_wl = set()
+        n_distinct = 0
+        for o in ok_outs:
+            if o["scenario_sig"] in seen_wl or o["invalid"]:
+                continue
+            seen_wl.add(o["scenario_sig"])
+            n_distinct += sum(v for k, v in o["stats"].items() if k.startswith("fault_fired_")) + (1 if o["nontrivial"] else 0)
     ev = {
         "property_id": prop, "tier": tier, "seed": seed, "level": mod.LEVEL,
         "coverage": {
-            "evaluations": len(outs),
-            "distinct_nontrivial": len(distinct),
+            "evaluations": n_eval,
+            "distinct_nontrivial": n_distinct,
+            "seeded_runs": len(outs),
             "rule": mod.RULE,
             "samples": samples or [{}],
             "planned_runs": n_runs,
@@ -401,11 +413,11 @@ def run_batch(prop: str, tier: str, seed: int, nproc: int | None = None) -> int:
         print(l)
     print(f"{prop} {tier}: runs={len(outs)}/{n_runs} distinct_nontrivial={len(distinct)} violations={n_viol} "
           f"known={len(known_seen)} harness_errors={len(harness_errors)} wall={wall_s:.1f}s")
+    for h in harness_errors[:10]:
+        print("HARNESS-ERROR " + h)
     if n_viol:
         return 1
     if harness_errors:
-        for h in harness_errors[:10]:
-            print("HARNESS-ERROR " + h)
         return 2
     if len(outs) < max(2, n_runs // 4):
         print(f"HARNESS-ERROR only {len(outs)} of {n_runs} runs completed within the wall budget")
